@@ -15,6 +15,7 @@ CONSTANTS
   CancelCalls = {1, 2}
   EnvTClose = TRUE
   Coarse = TRUE
+  Eager = FALSE
   WithHist = TRUE
 INVARIANTS Emit
 CHECK_DEADLOCK FALSE
